@@ -349,6 +349,15 @@ pub fn mutations(w: &schema::Biscuit, other: &schema::Biscuit, earlier: Option<&
             flip(&mut s2, rng);
             m.proof.content = Some(schema::proof::Content::NextSecret(s2));
             out.push(("proof secret flip".into(), m));
+            // the secret followed by more bytes (the last public key: the 64-byte key pair encoding; or anything)
+            let last_key = w.blocks.last().unwrap_or(&w.authority).next_key.key.clone();
+            for (what, extra) in [("the last public key", last_key), ("32 arbitrary bytes", vec![7u8; 32]), ("one byte", vec![0u8])] {
+                let mut m = w.clone();
+                let mut s2 = s.clone();
+                s2.extend(extra);
+                m.proof.content = Some(schema::proof::Content::NextSecret(s2));
+                out.push((format!("proof secret followed by {what}"), m));
+            }
             let mut m = w.clone();
             m.proof.content = Some(schema::proof::Content::FinalSignature(s.clone()));
             out.push(("proof secret presented as seal".into(), m));
@@ -412,10 +421,19 @@ fn secrets_json(hs: &[&History], extra: &[&schema::Biscuit]) -> Value {
         if let Some(schema::proof::Content::NextSecret(s)) = &w.proof.content {
             let alg = w.blocks.last().unwrap_or(&w.authority).next_key.algorithm;
             let a = if alg == 0 { Algorithm::Ed25519 } else { Algorithm::Secp256r1 };
-            if alg == 0 || alg == 1 {
-                if let Ok(k) = PrivateKey::from_bytes(s, a) {
-                    v.push(json!({"alg": alg, "sk": hex::encode(s), "pk": pubkey_json(&k.public())}));
-                }
+            // derived with ed25519-dalek / p256 directly, not through the library under test: a secret has the length the
+            // algorithm fixes, or it is the secret of no key
+            let _ = a;
+            let pk: Option<Vec<u8>> = if alg == 0 {
+                <[u8; 32]>::try_from(&s[..]).ok().map(|b| ed25519_dalek::SigningKey::from_bytes(&b).verifying_key().to_bytes().to_vec())
+            } else if alg == 1 {
+                use p256::elliptic_curve::sec1::ToEncodedPoint;
+                if s.len() == 32 { p256::SecretKey::from_slice(s).ok().map(|k| k.public_key().to_encoded_point(true).as_bytes().to_vec()) } else { None }
+            } else {
+                None
+            };
+            if let Some(pk) = pk {
+                v.push(json!({"alg": alg, "sk": hex::encode(s), "pk": {"alg": alg, "bytes": hex::encode(pk)}}));
             }
         }
     }
